@@ -162,7 +162,9 @@ where
                         priority,
                         key: event.key.clone(),
                     });
-                    inner.streams.insert(event.key, io_stream);
+                    // A stream registered under this key while this one was being polled is a
+                    // newer connection of the same peer: it stays, this one is dropped.
+                    inner.streams.entry(event.key).or_insert(io_stream);
                     return Poll::Ready(item);
                 }
                 Poll::Ready(None) => {
@@ -172,7 +174,8 @@ where
                 }
                 Poll::Pending => {
                     let mut inner = fair_queue.inner.lock();
-                    inner.streams.insert(event.key, io_stream);
+                    // (as above: never put this stream back over a newer one)
+                    inner.streams.entry(event.key).or_insert(io_stream);
                     pending_polls += 1;
                     if pending_polls > inner.streams.len() {
                         // Every stream had its turn. A stream that wakes itself while answering
